@@ -40,6 +40,11 @@ def run_kani(unit, harnesses, jobs=8, timeout='15m'):
     for b in range(nb):
         part = harnesses[b * BATCH:(b + 1) * BATCH]
         r = _run_kani_once(unit, part, jobs, timeout)
+        if r['json'] is None:
+            # kani-driver died (e.g. out of memory because something else was running): one retry for this batch
+            w0 = r['wall_s']
+            r = _run_kani_once(unit, part, jobs, timeout)
+            r['wall_s'] += w0
         out['wall_s'] += r['wall_s']
         out['rc'] = out['rc'] or r['rc']
         out['stdout'] = (out['stdout'] + r['stdout'])[-20000:]
